@@ -23,6 +23,12 @@ def wireOp (args : List String) : String :=
     match hexOrEmpty addr, parseBytesList rcpts, parseBytesList parts with
     | some a, some rs, some ps => showHex (Wire.hopBytes a rs ps)
     | _, _, _ => "bad-op"
+  | ["xreply", code, msg, cmd] =>
+    match hexOrEmpty code, hexOrEmpty msg, (if cmd == "none" then some none else (hexOrEmpty cmd).map some) with
+    | some c, some m, some k =>
+      let h := Wire.buildXReply (natsOfBytes c) (natsOfBytes m) (k.map natsOfBytes)
+      showHex (bytesOfNats h) ++ " " ++ (match Wire.parseXReplyCode h with | some x => showHex (bytesOfNats x) | none => "none")
+    | _, _, _ => "bad-op"
   | ["parseaddr", kw, line] =>
     -- the server side: command line -> (command, address, rest)
     match hexOrEmpty line with
